@@ -112,17 +112,17 @@ Definition fill_step (n : nat) (st : bool * list C) (c : C) : bool * list C :=
   else if Nat.eqb (length (snd st)) n then (true, snd st)
   else (false, if cmem c (snd st) then snd st else snd st ++ [c]).
 
-Lemma fill_fold n : forall (l : list (Z * C)) b el,
-  exists b', fold_left (fun (sr : (bool * list C) + pyexn) it => match sr with inr e => inr e | inl st => inl (fill_step n st (snd it)) end)
-                       l (inl (b, el)) = inl (b', if b then el else fill n el (map snd l)).
+Lemma fill_fold n {A} (p : A -> C) : forall (l : list A) b el,
+  exists b', fold_left (fun (sr : (bool * list C) + pyexn) it => match sr with inr e => inr e | inl st => inl (fill_step n st (p it)) end)
+                       l (inl (b, el)) = inl (b', if b then el else fill n el (map p l)).
 Proof.
-  induction l as [|[i c] l IH]; intros b el; cbn [fold_left map snd].
+  induction l as [|x l IH]; intros b el; cbn [fold_left map].
   - exists b. destruct b; reflexivity.
   - unfold fill_step at 2. cbn [fst snd]. destruct b.
     + destruct (IH true el) as (b' & E). exists b'. exact E.
     + cbn [fill]. destruct (Nat.eqb (length el) n).
       * destruct (IH true el) as (b' & E). exists b'. exact E.
-      * destruct (cmem c el); [destruct (IH false el) as (b' & E)|destruct (IH false (el ++ [c])) as (b' & E)]; exists b'; exact E.
+      * destruct (cmem (p x) el); [destruct (IH false el) as (b' & E)|destruct (IH false (el ++ [p x])) as (b' & E)]; exists b'; exact E.
 Qed.
 
 Lemma map_snd_enumerate {A} (l : list A) : map snd (py_enumerate l) = l.
@@ -140,12 +140,18 @@ Proof.
   - apply Nat.eqb_neq in E. apply Z.eqb_neq. lia.
 Qed.
 
-(* one iteration of the generated loop, pointwise, whatever its body looks like *)
-Ltac fill_step_tac n :=
-  let b := fresh "b" in let el := fresh "el" in let e := fresh "e" in let i := fresh "i" in let c := fresh "c" in
-  intros [[b el]|e] [i c]; [|reflexivity]; unfold fill_step; cbn [fst snd];
+(* one iteration of the generated loop, pointwise, whatever its body looks like (the items are the list members, with or
+   without their position) *)
+Ltac fill_cases n b el c :=
+  unfold fill_step; cbn [fst snd];
   rewrite ?py_len_eqb_nat, ?(Z.eqb_sym (Z.of_nat n)), ?py_len_eqb_nat;
   destruct b; [reflexivity|]; destruct (Nat.eqb (length el) n); [reflexivity|]; destruct (cmem c el); reflexivity.
+Ltac fill_step_tac_enum n :=
+  let b := fresh "b" in let el := fresh "el" in let e := fresh "e" in let i := fresh "i" in let c := fresh "c" in
+  intros [[b el]|e] [i c]; [|reflexivity]; fill_cases n b el c.
+Ltac fill_step_tac_plain n :=
+  let b := fresh "b" in let el := fresh "el" in let e := fresh "e" in let c := fresh "c" in
+  intros [[b el]|e] c; [|reflexivity]; fill_cases n b el c.
 
 (* ---- the whole function after the threshold *)
 Lemma jumping_in_votes cfg votes thr cv : In cv (ol_jumping cfg votes thr) -> In cv votes.
@@ -180,11 +186,17 @@ Proof.
       apply firstn_incl in Hk. eapply Permutation_in in Hk; [|apply sort_asc_nat_perm].
       apply in_map_iff in Hk. destruct Hk as (cv & E & Hk). inversion E; subst. exact Hk.
     + rewrite py_slice_to_nat, firstn_map. reflexivity.
-  - match goal with |- context [fold_left ?f (py_enumerate lst) ?i] =>
-      rewrite (fold_exn_ext f (fun sr it => match sr with inr e => inr e | inl st => inl (fill_step n st (snd it)) end)
-                            (py_enumerate lst) i ltac:(fill_step_tac n)) end.
-    destruct (fill_fold n (py_enumerate lst) false (map fst Jm)) as (b' & E). rewrite E. cbn [snd].
-    rewrite map_snd_enumerate. reflexivity.
+  - first
+      [ match goal with |- context [fold_left ?f (py_enumerate lst) ?i] =>
+          rewrite (fold_exn_ext f (fun sr it => match sr with inr e => inr e | inl st => inl (fill_step n st (snd it)) end)
+                                (py_enumerate lst) i ltac:(fill_step_tac_enum n)) end;
+        destruct (fill_fold n (@snd Z C) (py_enumerate lst) false (map fst Jm)) as (b' & E); rewrite E; cbn [snd];
+        rewrite map_snd_enumerate; reflexivity
+      | match goal with |- context [fold_left ?f lst ?i] =>
+          rewrite (fold_exn_ext f (fun sr it => match sr with inr e => inr e | inl st => inl (fill_step n st ((fun c : C => c) it)) end)
+                                lst i ltac:(fill_step_tac_plain n)) end;
+        destruct (fill_fold n (fun c : C => c) lst false (map fst Jm)) as (b' & E); rewrite E; cbn [snd];
+        rewrite map_id; reflexivity ].
 Qed.
 
 Theorem tie_ol_evaluate : forall cfg votes n lst,
